@@ -311,12 +311,19 @@ def ops_for(st, bd, level):
             yield 'refined', MeshLine(np.array([0., 2.])).refined([0]).refined([0]) if False else \
                 MeshLine(np.array([0., .5, 2.]))
 
+        held = {}
+
         def thunk(m, which='sorted'):
             for nme, ln in line_variants():
                 if nme == which:
+                    held['line'] = ln
+                    held['p'], held['t'] = ln.p.copy(), ln.t.copy()
                     return m * ln
 
         def j_ext(m0, m1, bad, out):
+            ln = held.get('line')
+            if ln is not None and not (np.array_equal(ln.p, held['p']) and np.array_equal(ln.t, held['t'])):
+                bad('operand-mutated', "extrusion changed the arrays of the one-dimensional mesh it was multiplied with")
             kind1 = 'wedge' if kind == 'tri' else 'quad'
             if kind_of(m1) != kind1:
                 bad('extrude-class', type(m1).__name__)
@@ -373,6 +380,13 @@ def ops_for(st, bd, level):
                 return tuple(q)
             ops.append((f'mirrored(e{ax},point=.25)', lambda m, n=n, pt=pt: m.mirrored(tuple(n), tuple(pt)),
                         j_map(phi, tol=1e-14, name='mirrored')))
+        # non-unit normal together with a point off the origin
+        def phi4(q):
+            q = list(q)
+            q[0] = 2 * 1.0 - q[0]
+            return tuple(q)
+        ops.append(('mirrored(2*e0,point=e0)', lambda m: m.mirrored(tuple([2.] + [0.] * (dim - 1)), tuple([1.] + [.5] * (dim - 1))),
+                    j_map(phi4, tol=1e-14, name='mirrored')))
         if dim >= 2 and not cheap:
             nn_ = np.array([3., 4.] + [0.] * (dim - 2)) / 5.
 
